@@ -4,7 +4,7 @@
 From Coq Require Import List NArith ZArith Bool Lia Sorted.
 From YV Require Import Gen.PatConsts Pat.Syntax Pat.Sem Pat.Matcher Pat.MatcherProofs
   Pat.Modifiers Pat.ModifiersProofs Pat.MatchList Pat.MatchListProofs
-  Pat.C01Check Pat.C01CheckProofs Pat.Base64 Pat.Chain Pat.ChainProofs.
+  Pat.C01Check Pat.C01CheckProofs Pat.Base64 Pat.Base64Proofs Pat.Chain Pat.ChainProofs.
 Import ListNotations.
 
 (* ---- R |= S : the reference matcher ------------------------------------ *)
